@@ -1,11 +1,11 @@
 package main
 
 import (
-	"os/exec"
 	"encoding/json"
 	"flag"
 	"fmt"
 	"os"
+	"os/exec"
 	"path/filepath"
 	"runtime"
 	"sort"
@@ -180,6 +180,9 @@ func main() {
 	for _, u := range units {
 		if u.Err != "" {
 			undecided = append(undecided, fmt.Sprintf("%s: %s", u.Unit, u.Err))
+		}
+		for _, ub := range u.Unbound {
+			undecided = append(undecided, fmt.Sprintf("%s: clause does not bind (skipped, the other clauses of the unit are decided): %s", u.Unit, ub))
 		}
 	}
 	sort.Slice(obls, func(i, j int) bool { return obls[i].Name < obls[j].Name })
@@ -400,7 +403,7 @@ func writeEvidence(path, prop, tier string, seed int, units []*UnitResult, obls,
 		"obligations": len(obls), "discharged": nDis,
 		"checker_cmd":  fmt.Sprintf("/verif/bin/govc -repo /repo -verif /verif -prop %s -tier %s (VCs generated from go/ssa of the current tree; each obligation raced on z3 4.8.12 / z3 5.1.0 / cvc5 1.0.3)", prop, tier),
 		"trusted_base": tb, "functions_under_contract": fns, "lemmas": lemmas, "by_backend": solvers.stats, "slowest": slowest, "samples": samples,
-		"vacuity": map[string]interface{}{"cover_queries": nCover, "reachable_or_unknown": nCoverOK, "unreachable_guards": unreachable},
+		"vacuity":                map[string]interface{}{"cover_queries": nCover, "reachable_or_unknown": nCoverOK, "unreachable_guards": unreachable},
 		"known_findings_matched": known, "undecided_units": undecided,
 	}
 	if extra != "" {
